@@ -11,22 +11,30 @@ import subprocess
 import tempfile
 
 PRE = r'''
+# every thread that can reach a lock USES it (acquire + release on the OS primitive that lives inside the shared abstract): the
+# memory must be valid for as long as any thread reaches it (ASan build: heap-use-after-free otherwise)
+(defn touch [x]
+  (case (type x)
+    :core/lock (do (ev/acquire-lock x) (ev/release-lock x))
+    :core/rwlock (do (ev/acquire-rlock x) (ev/release-rlock x) (ev/acquire-wlock x) (ev/release-wlock x))
+    nil)
+  x)
 (defn worker-main [[req back]]
   (def held @[])
   (forever
     (def msg (ev/take req))
     (if (nil? msg) (break))
     (case (msg 0)
-      :echo (ev/give back [:echo (msg 1)])
-      :hold (do (array/push held (msg 1)) (ev/give back [:held]))
-      :drop (do (array/clear held) (gccollect) (ev/give back [:dropped]))
+      :echo (ev/give back [:echo (touch (msg 1))])
+      :hold (do (array/push held (touch (msg 1))) (ev/give back [:held]))
+      :drop (do (each h held (touch h)) (array/clear held) (gccollect) (ev/give back [:dropped]))
       :gc (do (gccollect) (ev/give back [:gcd])))))
 '''
 
 
 def gen(rng):
     nobj = rng.range(1, 5)
-    kinds = [rng.choice(["probe", "probe", "lock", "chan"]) for _ in range(nobj)]
+    kinds = [rng.choice(["probe", "probe", "lock", "lock", "rwlock", "chan"]) for _ in range(nobj)]
     nw = rng.range(1, 3)
     ops = []
     holds = [set() for _ in range(nw)]
@@ -53,7 +61,7 @@ def gen(rng):
 
 
 def render(scn):
-    mk = {"probe": "(rc/probe)", "lock": "(ev/lock)", "chan": "(ev/thread-chan 2)"}
+    mk = {"probe": "(rc/probe)", "lock": "(ev/lock)", "rwlock": "(ev/rwlock)", "chan": "(ev/thread-chan 2)"}
     o = [PRE, "(defn run []"]
     o.append("  (def objs [%s])" % " ".join((mk[k] if k == "probe" else "(rc/watch %s)" % mk[k]) for k in scn["kinds"]))
     o.append("  (def reqs @[]) (def backs @[]) (def done (ev/chan 8))")
@@ -75,11 +83,13 @@ def render(scn):
         else:
             o.append("  (for w 0 %d (call w [:gc nil (backs w)]))" % scn["nw"])
             o.append("  (gccollect)")
+            o.append("  (each x objs (touch x))")
             o.append("  (print \"RC %d \" (string/join (map |(string (rc/count $)) [;objs ;backs]) \" \"))" % nchk)
             nchk += 1
     o.append("  (each r reqs (ev/chan-close r))")
     o.append("  (repeat %d (ev/take done))" % scn["nw"])
     o.append("  (gccollect)")
+    o.append("  (each x objs (touch x))")
     o.append("  (print \"RCEND \" (string/join (map |(string (rc/count $)) [;objs ;backs]) \" \"))")
     o.append("  :finished)")
     o.append("(defn collect [] (gccollect) (gccollect) :collected)")
